@@ -31,6 +31,8 @@ def one(d):
         shutil.rmtree(tmp, ignore_errors=True)
 dirs = sorted(glob.glob("/verif/seeded/*/"))
 dirs = [d.rstrip("/") for d in dirs if os.path.exists(d + "meta.json")]
+if len(sys.argv) > 1:  # optional: only the seeds whose id contains one of the given substrings
+    dirs = [d for d in dirs if any(a in os.path.basename(d) for a in sys.argv[1:])]
 with ThreadPoolExecutor(max_workers=6) as ex:
     for sid, det in ex.map(one, dirs):
         own = [p for p, _ in det] if det else []
